@@ -76,6 +76,8 @@ type Teamserver struct {
 	Clients    sync.Map // map[string]*Client
 	Users      []Users
 	EventsList []packager.Package
+	// EventsMutex guards EventsList: agent requests, operators and new logins use it at the same time
+	EventsMutex sync.Mutex
 	Service    *service.Service
 	WebHooks   *webhook.WebHook
 	DB         *db.DB
